@@ -47,6 +47,9 @@ def obligations(tier):
     # a member swapped for one of the same name that reads another input (remove_indicator + add_indicator)
     for name, kw, n in (("STDEV", dict(period=2), 5), ("BBANDS", dict(period=2), 5), ("KC", dict(period=2), 6), ("STDEVTHRES", dict(period=2), 5)):
         obs.append(Ob(f"swap-input/{name}{kw}/close->open/n={n}", dict(spec=["ind", name, kw], n=n, input="open"), DEF, fn="run_swap", weight=n * 3, budget_s=300))
+    # an older candle recomputed through calculate_index between the batch part and the live part of the stream
+    for name, kw, n, k in (("ATR", dict(period=2), 7, 5), ("KC", dict(period=2), 7, 5), ("BBANDS", dict(period=2), 7, 5), ("Supertrend", dict(period=2), 6, 4), ("STDEVTHRES", dict(period=2), 7, 5), ("STDEV", dict(period=2), 7, 5)):
+        obs.append(Ob(f"calculate_index(older) then appends/{name}{kw}/n={n}", dict(spec=["ind", name, kw], n=n, k=k, feed="cidx-then-append"), DEF, weight=n * 5, budget_s=300, max_paths=100000))
     # a fast and a slow instance of one class side by side in a Hexital: each follows its own definition
     for name, kw, sib, n in (("ATR", dict(period=3), dict(period=2), 6), ("STDEV", dict(period=3), dict(period=2), 6), ("BBANDS", dict(period=3), dict(period=2), 6), ("KC", dict(period=3), dict(period=2), 6),
                              ("KC", dict(period=2), dict(period=2, multiplier=1.5), 5), ("donchian", dict(period=3), dict(period=2), 6), ("Supertrend", dict(period=2), dict(period=2, multiplier=1.5), 4),
